@@ -69,7 +69,7 @@ func ssCase(c *mon.Case, r *mon.Run, dir string, f fault, attack string, seed ui
 	case "eof":
 		s2c.SetCut(f.off, memwire.CutEOF)
 	case "rst":
-		s2c.SetCut(f.off, memwire.CutRST)
+		cutWithError(s2c, f.off)
 	case "silence":
 		s2c.SetCut(f.off, memwire.CutSilence)
 	case "flip":
@@ -657,7 +657,7 @@ func socksCase(c *mon.Case, r *mon.Run, kind string, off int, garbage bool, seed
 	case "eof":
 		cw.Out().CloseWrite()
 	case "rst":
-		cw.Out().SetCut(int64(off), memwire.CutRST)
+		cutWithError(cw.Out(), int64(off))
 	case "silence":
 	}
 	time.Sleep(60 * time.Second)
